@@ -81,6 +81,19 @@ PROPS["C11"] = dict(
                   "stack-trace text (runtime.Callers) is checked by the harness only"],
     assumptions=["a nil pointer of a foreign error type is not used as a list argument (Go treats it as a non-nil error and calls its Error method)"],
 )
+PROPS["C17"] = dict(
+    n_quick=12000, n_thorough=600000, shards=8, go_build_flags=["-race"],
+    rule="cases: histories of 1-80 operations over two notifiers and six targets (three batch-capable, two panicking): Register with 1-3 names "
+         "from a hierarchy with empty segments, repeated dots and look-alike prefixes (a.b vs a.bc vs ab), priorities 0-3 with ties, "
+         "RegisterFromNotifier, Unregister, SetEnabled, Reset, StartBatch/EndBatch, Notify; after EVERY operation the full call log (who was "
+         "called, with which name, in which order), the recovery-handler count and both batch levels. One case in 40 is a concurrent stress "
+         "(6 goroutines x 300 random operations) under the race detector. non-trivial = history in which some Notify reaches a target; "
+         "distinct = distinct case text",
+    trivial_class=r"(trivial|^bad$|^exn$)",
+    trusted_base=["sort.Slice and Go map iteration order: any order non-increasing in priority is accepted",
+                  "data-race freedom is observed by Go's race detector on the stress cases (harness built with -race), not proved"],
+    assumptions=["targets are comparable pointers; the recovery handler does not panic"],
+)
 
 # properties not (yet) claimed, with the reason; an entry is dropped automatically once the property is in PROPS
 NOT_APPLICABLE = {
@@ -89,6 +102,15 @@ NOT_APPLICABLE = {
 }
 
 MANIFEST_TEXT = {
+    "C17": dict(
+        level_text="Proof: Notify consults exactly the dot-ancestors of the normalised name (never a textual prefix), calls nobody when "
+                   "disabled / for an empty name / after Reset, and k nested StartBatch/EndBatch pairs send BatchMode(true) once on the "
+                   "outermost start and BatchMode(false) once on the matching end to the same targets -- Coq theorems over an executable "
+                   "three-map model. Exactly-once delivery to the registered targets in priority order, Unregister, RegisterFromNotifier "
+                   "as a union, panic isolation and the batch levels are decided per run by the correspondence check and by a plain "
+                   "registration-set oracle applied to the implementation's call log after every operation; concurrency by the race detector.",
+        level_note="Trusted: Coq kernel, extraction, drivers, harness, Go race detector; model hand-written, tied by correspondence on sampled histories.",
+        technique="Coq proof on a hand-written Gallina model + differential correspondence check (+ race detector for the concurrency clause)"),
     "C11": dict(
         level_text="Proof: in the store model of errs, Append(acc, args) yields exactly items(acc) ++ items(args...) in order (aggregates "
                    "flattened), is nil exactly when that list is empty, returns a non-empty *Error accumulator itself, leaves every other "
